@@ -59,10 +59,76 @@ def specNum (src : List Char) : String :=
 
 def specLex (src : List Char) : String := s!"L {utf8Len src}"
 
+/-! ### `expr`: spec-side rendering and denotation of a generated expression -/
+open Spec.Arith in
+partial def parseExpr : List String → Option (NExpr × List String)
+  | [] => none
+  | t :: rest =>
+    match t.toList with
+    | 'L' :: h =>
+      match Spec.Decimal.parse (hexDecode (String.ofList h)) with
+      | some l => some (.lit l, rest)
+      | none => none
+    | ['B', c] =>
+      let op? : Option BinOp := match c with
+        | '+' => some .add | '-' => some .sub | '*' => some .mul | '/' => some .div | '^' => some .pow
+        | _ => none
+      match op? with
+      | none => none
+      | some op =>
+        match parseExpr rest with
+        | none => none
+        | some (a, rest) =>
+          match parseExpr rest with
+          | none => none
+          | some (b, rest) => some (.bin op a b, rest)
+    | ['P'] =>
+      match parseExpr rest with
+      | none => none
+      | some (e, rest) => some (.paren e, rest)
+    | 'C' :: f :: n =>
+      let fn? : Option Fn := match f with
+        | 'r' => some .round | 'f' => some .floor | 'c' => some .ceil | _ => none
+      match fn?, (String.ofList n).toNat? with
+      | some fn, some k =>
+        let rec args (k : Nat) (rest : List String) (acc : List NExpr) : Option (List NExpr × List String) :=
+          match k with
+          | 0 => some (acc.reverse, rest)
+          | k + 1 =>
+            match parseExpr rest with
+            | none => none
+            | some (e, rest) => args k rest (e :: acc)
+        match args k rest [] with
+        | none => none
+        | some (as, rest) => some (.call fn as, rest)
+      | _, _ => none
+    | _ => none
+
+open Spec.Arith in
+def wfB : NExpr → Bool
+  | .lit l => decide l.WF
+  | .bin op a b => wfB a && wfB b && decide (op.prio ≤ a.prio) && decide (op.prio < b.prio)
+  | .paren e => wfB e
+  | .call _ args => args.attach.all (fun ⟨a, _⟩ => wfB a)
+
+def cmdExpr (toks : List String) : String :=
+  match parseExpr toks with
+  | none => "E BAD"
+  | some (e, rest) =>
+    let layout : List (List Char) := match rest with
+      | "|" :: ws => ws.map hexDecode
+      | _ => []
+    let text := Spec.Arith.renderQuery e layout
+    let v := match Spec.Arith.denote e with
+      | .ok r => ratStr r
+      | .error _ => "ERR"
+    s!"E {hexEncode text} {v} {if wfB e then 1 else 0}"
+
 def dispatch (line : String) : String :=
   let parts := line.trimAscii.toString.splitOn " "
   match parts with
   | ["lex", h] => cmdLex (hexDecode h) ++ "\t" ++ specLex (hexDecode h)
+  | "expr" :: toks => cmdExpr toks
   | ["num", h] => cmdNum (hexDecode h) ++ "\t" ++ specNum (hexDecode h)
   | cmd :: _ => s!"? unknown command {cmd}"
   | [] => "?"
